@@ -8,7 +8,7 @@ import tempfile
 import numpy as np
 
 from .core import HarnessError
-from .targets import PermutingPool, Target
+from .targets import PermutingPool, ScriptedExecutor, Target
 
 CFG_DEFAULTS = dict(
     sample="tpcn", resample="mult", clustering=False, normalize=True, cluster_every=1, n_max_clusters=None,
@@ -26,6 +26,12 @@ def make_sampler(target, cfg, output_dir=None, output_label=None):
     pool = c["pool"]
     if pool == "permuting":
         pool = PermutingPool(c.get("pool_seed", 0))
+    elif pool == "executor":
+        pool = ScriptedExecutor(c.get("pool_seed", 0))
+    elif pool == "threads":
+        from concurrent.futures import ThreadPoolExecutor
+
+        pool = ThreadPoolExecutor(4)
     for k in ("sample", "resample", "clustering", "normalize", "cluster_every", "n_max_clusters", "split_threshold",
               "ess_ratio", "volume_variation", "n_steps", "n_max_steps", "periodic", "reflective", "n_particles", "random_state"):
         kw[k] = c[k]
